@@ -8,6 +8,8 @@ From DS Require Gen.GenFreq Gen.GenCodec.
 From Coq Require Import Permutation ZifyBool ZifyNat ZifyN.
 Open Scope N_scope.
 
+Ltac splits := repeat match goal with |- _ /\ _ => split end.
+
 (* ---------- constants and small arithmetic ---------- *)
 Lemma layout_constants :
   zN GenFreq.PREAMBLE_LONGS_EMPTY = 1 /\ zN GenFreq.PREAMBLE_LONGS_NONEMPTY = 4 /\ zN GenFreq.SERIAL_VERSION = 1 /\
@@ -278,9 +280,9 @@ Lemma load_spec H : forall items values c,
     rp_len (fc_map c') = rp_len (fc_map c).
 Proof.
   induction items as [|k items IH]; intros values c Hi Hlen Hcap.
-  - exists c. cbn [fc_load cs_load]. repeat split; try reflexivity; try assumption. apply Permutation_refl.
+  - exists c. cbn [fc_load cs_load]. splits; try reflexivity; try assumption.
   - destruct values as [|v values].
-    + exists c. cbn [fc_load cs_load]. repeat split; try reflexivity; try assumption. apply Permutation_refl.
+    + exists c. cbn [fc_load cs_load]. splits; try reflexivity; try assumption.
     + cbn [fc_load length map hd tl cs_load] in *. unfold cs_add0. destruct (N.eqb_spec v 0) as [->|Hv].
       * unfold fc_update at 1. change (0 =? 0) with true. cbn [obind fst].
         apply (IH values c Hi Hlen). lia.
@@ -296,7 +298,7 @@ Proof.
         exists c'. rewrite E. unfold c1 in *. cbn [fc_lg_max fc_cur_cap fc_offset fc_sample_size fc_map] in *.
         split; [reflexivity|]. split; [exact Hi'|]. split.
         { eapply Permutation_trans; [exact P'|]. apply cs_load_perm; [apply (tinv_nodup H _ Hi1)|exact P1]. }
-        repeat split; try assumption; congruence.
+        splits; try assumption; congruence.
 Qed.
 
 (* loading distinct keys with positive counts into the empty map gives back the list *)
@@ -316,4 +318,67 @@ Proof.
     apply (Permutation_NoDup (l := k :: map fst l ++ items)).
     + apply Permutation_middle.
     + constructor; assumption.
+Qed.
+
+(* ---------- the two image forms, as byte lists ---------- *)
+Definition img_full (b0 lgm lgc fl u16 n u32 w off : N) (vals items trail : list N) : list N :=
+  [b0; 1; 10; lgm; lgc; fl] ++ le_bytes 2 u16 ++ le_bytes 4 n ++ le_bytes 4 u32 ++ le_bytes 8 w ++ le_bytes 8 off
+  ++ (flat_map (le_bytes 8) vals ++ flat_map (le_bytes 8) items ++ trail).
+Definition img_empty (b0 lgm lgc fl u16 : N) (trail : list N) : list N :=
+  [b0; 1; 10; lgm; lgc; fl] ++ le_bytes 2 u16 ++ trail.
+
+Lemma le4_fold n : [n mod 256; n / 256 mod 256; n / 256 / 256 mod 256; n / 256 / 256 / 256 mod 256] = le_bytes 4 n.
+Proof. reflexivity. Qed.
+Lemma le8_fold n : [n mod 256; n / 256 mod 256; n / 256 / 256 mod 256; n / 256 / 256 / 256 mod 256;
+                    n / 256 / 256 / 256 / 256 mod 256; n / 256 / 256 / 256 / 256 / 256 mod 256;
+                    n / 256 / 256 / 256 / 256 / 256 / 256 mod 256; n / 256 / 256 / 256 / 256 / 256 / 256 / 256 mod 256] = le_bytes 8 n.
+Proof. reflexivity. Qed.
+
+Lemma parse_full b0 lgm lgc fl u16 n u32 w off vals items trail :
+  N.land b0 63 = 4 -> lgc <= lgm -> lgm <= 62 -> N.land fl 5 = 0 ->
+  n = N.of_nat (length vals) -> length items = length vals -> n < 2 ^ 32 -> w < M64 -> off < M64 ->
+  Forall (fun v => v < M64) vals -> Forall (fun v => v < M64) items ->
+  n <= 2 ^ N.max lgc LG_MIN / LOAD_DEN * LOAD_NUM -> off + sumN vals <= w ->
+  fc_parse (img_full b0 lgm lgc fl u16 n u32 w off vals items trail) = Ok (ImgFull lgm lgc w off vals items).
+Proof.
+  intros Hb0 Hlg Hlgm Hfl Hn Hli Hn32 Hw Hoff Hvals Hitems Hcap Hsum.
+  destruct layout_constants as (Cpe & Cpn & Csv & Cfam & Cmask & _).
+  unfold fc_parse, img_full.
+  set (payload := flat_map (le_bytes 8) vals ++ flat_map (le_bytes 8) items ++ trail).
+  cbn [le_bytes app length nth firstn skipn Nat.ltb Nat.leb].
+  rewrite Hb0, Cpe, Cpn, Csv, Cfam, Cmask, Hfl. rewrite !N.eqb_refl. cbn [negb].
+  destruct (N.ltb_spec lgm lgc); [lia|].
+  pose proof (pow2_le_62 lgm Hlgm). change LOAD_NUM with 3 in *.
+  destruct (N.leb_spec M64 (2 ^ lgm * 3)); [lia|].
+  change (4 =? 1) with false. cbn [negb].
+  rewrite !le4_fold, !le8_fold.
+  rewrite (le_val_le_bytes_small 4) by (change (256 ^ N.of_nat 4) with (2 ^ 32); exact Hn32).
+  rewrite !(le_val_le_bytes_small 8) by (change (256 ^ N.of_nat 8) with 18446744073709551616; unfold M64 in *; assumption).
+  assert (Hpl : length payload = (16 * length vals + length trail)%nat).
+  { unfold payload. rewrite !app_length, !flat_map_le8_length. lia. }
+  rewrite Hpl.
+  match goal with |- context [?a / 8 <? n] => destruct (N.ltb_spec (a / 8) n) as [Hbad|_] end.
+  { exfalso. assert (n <= (N.of_nat (S (S (S (S (S (S (S (S (S (S (S (S (S (S (S (S (S (S (S (S (S (S (S (S (S (S (S (S (S (S (S (S (16 * length vals + length trail))))))))))))))))))))))))))))))))) - 4 * 8) / 8).
+    { apply N.div_le_lower_bound; lia. }
+    lia. }
+  destruct (N.ltb_spec (2 ^ N.max lgc LG_MIN / LOAD_DEN * 3) n); [lia|].
+  replace (N.to_nat n) with (length vals) by lia.
+  unfold payload. rewrite (read_u64s_flat vals _ Hvals).
+  destruct (N.ltb_spec w (off + sumN vals)); [lia|].
+  rewrite <- Hli. rewrite (read_u64s_flat items _ Hitems). reflexivity.
+Qed.
+
+Lemma parse_empty b0 lgm lgc fl u16 trail :
+  N.land b0 63 = 1 -> lgc <= lgm -> lgm <= 62 -> N.land fl 5 <> 0 ->
+  fc_parse (img_empty b0 lgm lgc fl u16 trail) = Ok (ImgEmpty lgm lgc).
+Proof.
+  intros Hb0 Hlg Hlgm Hfl.
+  destruct layout_constants as (Cpe & Cpn & Csv & Cfam & Cmask & _).
+  unfold fc_parse, img_empty.
+  cbn [le_bytes app length nth firstn skipn Nat.ltb Nat.leb].
+  rewrite Hb0, Cpe, Csv, Cfam, Cmask. rewrite !N.eqb_refl. cbn [negb].
+  destruct (N.ltb_spec lgm lgc); [lia|].
+  pose proof (pow2_le_62 lgm Hlgm). change LOAD_NUM with 3 in *.
+  destruct (N.leb_spec M64 (2 ^ lgm * 3)); [lia|].
+  destruct (N.eqb_spec (N.land fl 5) 0); [contradiction|]. reflexivity.
 Qed.
